@@ -7,7 +7,11 @@ Sub-checks:
             Content-Length must agree with the body. A call that raises before sending passes.
   object    tocimxmlstr() of every C01 object spec (plus XML-illegal string atoms): well-formed and
             DTD-valid as a fragment.
-  listener  the listener's responses (C17 harness), when available.
+  listener  the real ListenerRequestHandler (C17 harness: in-memory socket, stub server) is fed every
+            single body deviation of a valid ExportIndication request (attribute values incl. markup
+            characters and non-ASCII text that the listener echoes, renamed / missing / extra
+            elements, parameter variants); every response body it emits must be well-formed and
+            DTD-valid CIM-XML.
 """
 import itertools
 import json
@@ -268,6 +272,41 @@ def check_object(spec, acc, minimize=True):
 
 # ------------------------------------------------------------------------------------------
 
+# ------------------------------------------------------------------------------------------
+# listener sub-check
+
+def listener_specs():
+    from checks import c17_listener_http as c17
+    yield {}
+    for d in c17.body_deviations():
+        if d[0] in ('trunc', 'byte'):
+            continue        # ill-formed requests get an HTTP error without body (C17 judges those)
+        yield {'body': d}
+
+
+def check_listener(spec, acc):
+    from checks import c17_listener_http as c17
+    world = c17.World()
+    out, exc = world.request(c17.build_request(spec))
+    key = ('listener', json.dumps(spec, sort_keys=True))
+    if exc is not None:
+        acc.case(key, nontrivial=False, outcome='listener:handler-raised (C17)')
+        return
+    problem, status, headers, body = c17.parse_response(out)
+    if problem or not body or 'xml' not in headers.get('content-type', ''):
+        acc.case(key, nontrivial=False, outcome='listener:no-cimxml-body')
+        return
+    bad = dtd.check(body)
+    acc.case(key, nontrivial=True, outcome='listener:%s:%s' % (status, 'valid' if bad is None else bad[0]),
+             sample=dict(spec=spec, response=body.decode('utf-8', 'replace')[:300])
+             if spec.get('body') and spec['body'][0] == 'attr-set' and bad is None else None)
+    if bad:
+        kind, detail = bad
+        where = dtd.dtd_error_class(detail) if kind == 'dtd-invalid' else xml_context(body, detail)
+        acc.violation(dict(check='listener', what=kind, where=where), dict(check='listener', spec=spec),
+                      'well-formed, DTD-valid export response', '%s | %s' % (detail, body[:200]))
+
+
 def call_cases(tier):
     budget = BOUNDS[tier]['params_off_default']
     for op in ops.OPS:
@@ -284,6 +323,7 @@ def call_cases(tier):
 def plan(tier, seed):
     shards = [dict(check='request', part=i, of=NSHARDS) for i in range(NSHARDS)]
     shards += [dict(check='object', part=i, of=16) for i in range(16)]
+    shards += [dict(check='listener', part=i, of=8) for i in range(8)]
     return shards
 
 
@@ -295,6 +335,12 @@ def run_shard(shard, tier):
         for i, (op, args, ns, pull) in enumerate(call_cases(tier)):
             if i % of == part:
                 check_call(op, args, ns, pull, acc)
+    elif shard['check'] == 'listener':
+        import logging
+        logging.disable(logging.CRITICAL)
+        for i, spec in enumerate(listener_specs()):
+            if i % of == part:
+                check_listener(spec, acc)
     else:
         for i, spec in enumerate(object_specs(tier)):
             if i % of == part:
@@ -307,6 +353,10 @@ def replay(case, tier):
     acc = Acc()
     if case['check'] == 'request':
         check_call(case['op'], case['args'], case['default_namespace'], case['pull'], acc, minimize=False)
+    elif case['check'] == 'listener':
+        import logging
+        logging.disable(logging.CRITICAL)
+        check_listener(case['spec'], acc)
     else:
         check_object(case['spec'], acc, minimize=False)
     return acc
